@@ -385,8 +385,8 @@ fn main() {
                     if n % nsh != shard { continue; }
                     let prog = vec![h];
                     let name = fresh_name();
-                    let mut ch = |_s: usize, en: &[usize], _l: Option<usize>| Choice::Run(en[0]);
-                    let ex = run_threads(bodies_pl(&name, &prog), &mut ch);
+                    let b: Box<dyn FnOnce()> = bodies_pl(&name, &prog).pop().unwrap();
+                    let ex = run_inline(b);
                     let e = finish_pl(&name);
                     emit(&prog, &ex, e, &mut out);
                 }
